@@ -599,10 +599,11 @@ fn lo0() -> BenchOptions<'static> { BenchOptions { ignore: opt_bool(unsafe { LOP
 fn lo1() -> BenchOptions<'static> { BenchOptions { ignore: opt_bool(unsafe { LOPTS[1] }), ..Default::default() } }
 
 // @cell props=C14 tier=quick kind=core timeout=1500 mem=20 cls=K unwindre=try_from_fn_erased.*CounterSet9overwrite.*\.0$:6
-// @desc the real run_tree_list on module -> group -> benchmark with ignore symbolic (unset/false/true) on the group,
-// @desc the benchmark and the runner, group/benchmark option sets present or absent, and --ignored/--include-ignored
-// @desc symbolic: exactly one line is printed iff a test run executes the case, i.e. iff should_run(effective ignore)
-// @desc with effective ignore = runner value, else the benchmark's, else the group's, else false
+// @desc the real run_tree_list on module -> group -> benchmark with ignore symbolic (unset/false/true) on the group
+// @desc and on the benchmark (the runner-level value is unset: no public API sets it), group/benchmark option sets
+// @desc present or absent, and --ignored/--include-ignored symbolic: exactly one line is emitted (observed as control
+// @desc reaching the print statement) iff a test run executes the case, i.e. iff should_run(effective ignore) with
+// @desc effective ignore = the benchmark's value, else the group's, else false
 #[kani::proof]
 #[kani::unwind(3)]
 #[kani::stub(std::string::String::push_str, push_str_rec)]
